@@ -562,6 +562,9 @@ func (s *server) ReadRows(req *btpb.ReadRowsRequest, stream btpb.Bigtable_ReadRo
 		srs = mergeRowRanges(req.GetRows().GetRowKeys(), req.GetRows().GetRowRanges())
 	}
 
+	// The table is in use from the start of the scan, not only once it has ended (a GC pass
+	// must not begin while a client is still reading).
+	tbl.read()
 	defer tbl.read()
 	tbl.mu.RLock()
 	defer tbl.mu.RUnlock()
@@ -573,6 +576,7 @@ func (s *server) ReadRows(req *btpb.ReadRowsRequest, stream btpb.Bigtable_ReadRo
 	var cb chunkBuilder
 	sendResponse := func() error {
 		// Reverse the lock while streaming the row out.
+		tbl.read()
 		tbl.mu.RUnlock()
 		defer tbl.mu.RLock()
 		return stream.Send(&btpb.ReadRowsResponse{Chunks: cb.chunks})
